@@ -178,6 +178,11 @@ func NewParametersFromLiteral(paramDef ParametersLiteral) (params Parameters, er
 		paramDef.DefaultScale = s
 	}
 
+	// The ring degree is validated before any prime is generated for it.
+	if err = checkSizeParams(paramDef.LogN); err != nil {
+		return Parameters{}, err
+	}
+
 	// Invalid moduli configurations: do not allow empty Q and LogQ as well double-set log and non-log fields.
 	if paramDef.Q == nil && paramDef.LogQ == nil {
 		return Parameters{}, fmt.Errorf("rlwe.NewParametersFromLiteral: both Q and LogQ fields are empty")
@@ -822,8 +827,9 @@ func checkModuliLogSize(logQ, logP []int) error {
 // GenModuli generates a valid moduli chain from the provided moduli sizes.
 func GenModuli(LogNthRoot int, logQ, logP []int) (q, p []uint64, err error) {
 
-	if err = checkSizeParams(logN); err != nil {
-		return
+	// 2^LogNthRoot must fit the 61-bit moduli: no prime is 1 modulo a larger root order.
+	if LogNthRoot < 1 || LogNthRoot > MaxModuliSize+1 {
+		return nil, nil, fmt.Errorf("LogNthRoot=%d is not in [1, %d]", LogNthRoot, MaxModuliSize+1)
 	}
 
 	if err = checkModuliLogSize(logQ, logP); err != nil {
